@@ -297,22 +297,31 @@ impl Constant {
         if self.bits() != rhs.bits() {
             Err(Error::Sort)
         } else {
-            let r = rhs
-                .value
-                .to_usize()
-                .map(|bits| {
+            let msb = self.value() >> (self.bits - 1);
+            let all_one =
+                (BigUint::from_u64(1).unwrap() << self.bits) - BigUint::from_u64(1).unwrap();
+            let r = match rhs.value.to_usize() {
+                // Shifting by less than the width fills the vacated bits with
+                // the sign bit.
+                Some(bits) if bits < self.bits => {
                     let value = self.value() >> bits;
-                    let msb = self.value() >> (self.bits - 1);
                     if msb.is_zero() {
                         value
                     } else {
-                        let all_one = (BigUint::from_u64(1).unwrap() << self.bits)
-                            - BigUint::from_u64(1).unwrap();
                         let fill = all_one << (self.bits - bits);
                         fill | value
                     }
-                })
-                .unwrap_or_else(|| BigUint::from_u64(0).unwrap());
+                }
+                // Shifting by the width or more (including amounts which do
+                // not fit in a usize) leaves only copies of the sign bit.
+                _ => {
+                    if msb.is_zero() {
+                        BigUint::from_u64(0).unwrap()
+                    } else {
+                        all_one
+                    }
+                }
+            };
             Ok(Constant::new_big(r, self.bits))
         }
     }
